@@ -4,6 +4,7 @@
 // Author: Shuo Chen (chenshuo at chenshuo dot com)
 
 #include "muduo/base/AsyncLogging.h"
+#include "muduo/base/VerifHooks.h"
 #include "muduo/base/LogFile.h"
 #include "muduo/base/Timestamp.h"
 
@@ -88,6 +89,7 @@ void AsyncLogging::threadFunc()
     }
 
     assert(!buffersToWrite.empty());
+    MUDUO_VERIF_POINT("AsyncLogging::threadFunc:swapped", this);
 
     if (buffersToWrite.size() > 25)
     {
@@ -130,6 +132,7 @@ void AsyncLogging::threadFunc()
 
     buffersToWrite.clear();
     output.flush();
+    MUDUO_VERIF_POINT("AsyncLogging::threadFunc:beforeRetest", this);
   }
   output.flush();
 }
